@@ -14,10 +14,10 @@ VARIABLES files, filesO,   \* by-merkle and by-owner index: fid -> file record
           providers,       \* acct -> [burned, dom]
           collat,          \* acct -> amount
           attest, report,  \* <<prover, fid>> -> [names, done]
-          bal, height, par,
+          bal, bal2, height, par,   \* bal2: balances in a second denomination (gauges funded at genesis may hold any coin)
           earned, ever, signers, missed, pwin,   \* ghosts (history), see GhostNext
           last
-vars   == <<files, filesO, proofs, providers, collat, attest, report, bal, height, par>>
+vars   == <<files, filesO, proofs, providers, collat, attest, report, bal, bal2, height, par>>
 ghosts == <<earned, ever, signers, missed, pwin>>
 
 MODS == "m:storage"
@@ -60,7 +60,7 @@ PostFile(o, m, sz, mp) ==
       old == IF Fixed("repost") THEN {<<p, fid>> : p \in Listed(fid)} ELSE {}
   IN /\ files' = Put(files, fid, rec) /\ filesO' = Put(filesO, fid, rec)
      /\ proofs' = DelAll(proofs, old)
-     /\ UNCHANGED <<providers, collat, attest, report, bal, height, par>> /\ last' = lbl
+     /\ UNCHANGED <<providers, collat, attest, report, bal, bal2, height, par>> /\ last' = lbl
 
 (* DeleteFile: msg_server_file_delete.go (never fails) *)
 DeleteFile(s, m, st) ==
@@ -69,7 +69,7 @@ DeleteFile(s, m, st) ==
   IN IF fid \notin DOMAIN files THEN UNCHANGED vars /\ last' = lbl
      ELSE /\ files' = Del(files, fid) /\ filesO' = Del(filesO, fid)
           /\ proofs' = DelAll(proofs, {<<p, fid>> : p \in Listed(fid)})
-          /\ UNCHANGED <<providers, collat, attest, report, bal, height, par>> /\ last' = lbl
+          /\ UNCHANGED <<providers, collat, attest, report, bal, bal2, height, par>> /\ last' = lbl
 
 (* PostProof: msg_server_postproof.go. claim/c are ground truth about the payload:     *)
 (* claim = "valid" iff the payload is a Merkle proof of chunk c under this file's root. *)
@@ -93,11 +93,11 @@ PostProof(p, fid, toProve, c, claim, nc) ==
           THEN /\ nc \in ChalRange(f.size, par.cs)
                /\ IF listed THEN UNCHANGED <<files, filesO>> ELSE addp
                /\ proofs' = Put(proofs, <<p, fid>>, [last |-> height, chunk |-> nc])
-               /\ UNCHANGED <<providers, collat, attest, report, bal, height, par>> /\ last' = lbl
+               /\ UNCHANGED <<providers, collat, attest, report, bal, bal2, height, par>> /\ last' = lbl
           ELSE IF ~listed /\ ~Fixed("addprover")
                THEN /\ addp
                     /\ proofs' = Put(proofs, <<p, fid>>, [last |-> height, chunk |-> 0])
-                    /\ UNCHANGED <<providers, collat, attest, report, bal, height, par>>
+                    /\ UNCHANGED <<providers, collat, attest, report, bal, bal2, height, par>>
                     /\ last' = [lbl EXCEPT !.ok = FALSE]
                ELSE Fail(lbl)
 
@@ -107,7 +107,7 @@ InitProvider(p, dom) ==
   IF p \in DOMAIN providers \/ bal[p] < par.price THEN Fail(lbl)
   ELSE /\ providers' = Put(providers, p, [burned |-> 0, dom |-> dom])
        /\ collat' = Put(collat, p, par.price)
-       /\ bal' = [bal EXCEPT ![p] = @ - par.price, ![MODC] = @ + par.price]
+       /\ bal' = [bal EXCEPT ![p] = @ - par.price, ![MODC] = @ + par.price] /\ UNCHANGED bal2
        /\ UNCHANGED <<files, filesO, proofs, attest, report, height, par>> /\ last' = lbl
 Shutdown(p) ==
   LET lbl == [a |-> "shutdown", s |-> p, ok |-> TRUE]
@@ -115,17 +115,17 @@ Shutdown(p) ==
   IF p \notin DOMAIN providers \/ bal[MODC] < amt THEN Fail(lbl)
   ELSE /\ providers' = Del(providers, p)
        /\ collat' = Del(collat, p)
-       /\ bal' = [bal EXCEPT ![p] = @ + amt, ![MODC] = @ - amt]
+       /\ bal' = [bal EXCEPT ![p] = @ + amt, ![MODC] = @ - amt] /\ UNCHANGED bal2
        /\ UNCHANGED <<files, filesO, proofs, attest, report, height, par>> /\ last' = lbl
 SetIP(p, dom) ==
   LET lbl == [a |-> "setip", s |-> p, dom |-> dom, ok |-> TRUE] IN
   IF p \notin DOMAIN providers THEN Fail(lbl)
   ELSE /\ providers' = [providers EXCEPT ![p].dom = dom]
-       /\ UNCHANGED <<files, filesO, proofs, collat, attest, report, bal, height, par>> /\ last' = lbl
+       /\ UNCHANGED <<files, filesO, proofs, collat, attest, report, bal, bal2, height, par>> /\ last' = lbl
 \* governance changes the collateral price (params keeper)
 SetPrice(x) ==
   /\ par' = [par EXCEPT !.price = x]
-  /\ UNCHANGED <<files, filesO, proofs, providers, collat, attest, report, bal, height>>
+  /\ UNCHANGED <<files, filesO, proofs, providers, collat, attest, report, bal, bal2, height>>
   /\ last' = [a |-> "setprice", v |-> x, ok |-> TRUE]
 
 (* forms: msg_server_attest.go, msg_server_report.go, providers.go GetActiveProviders *)
@@ -140,7 +140,7 @@ ReqAttest(p, fid, names) ==
   ELSE IF Cardinality(Eligible(p)) < par.fs THEN Fail([lbl EXCEPT !.names = <<>>])
   ELSE /\ FormNamesOK(p, names)
        /\ attest' = Put(attest, <<p, fid>>, [names |-> names, done |-> {}])
-       /\ UNCHANGED <<files, filesO, proofs, providers, collat, report, bal, height, par>> /\ last' = lbl
+       /\ UNCHANGED <<files, filesO, proofs, providers, collat, report, bal, bal2, height, par>> /\ last' = lbl
 \* the handler swallows every error: ok is always TRUE
 Attest(s, p, fid) ==
   LET lbl == [a |-> "attest", s |-> s, p |-> p, f |-> fid, ok |-> TRUE]
@@ -151,11 +151,11 @@ Attest(s, p, fid) ==
      ELSE LET done2 == attest[k].done \cup {s} IN
           IF Cardinality(done2) < par.min
           THEN /\ attest' = [attest EXCEPT ![k].done = done2]
-               /\ UNCHANGED <<files, filesO, proofs, providers, collat, report, bal, height, par>> /\ last' = lbl
+               /\ UNCHANGED <<files, filesO, proofs, providers, collat, report, bal, bal2, height, par>> /\ last' = lbl
           ELSE IF fid \notin DOMAIN files \/ p \notin Listed(fid) \/ ~HasRec(p, fid) THEN noop
           ELSE /\ proofs' = [proofs EXCEPT ![k].last = height]
                /\ attest' = Del(attest, k)
-               /\ UNCHANGED <<files, filesO, providers, collat, report, bal, height, par>> /\ last' = lbl
+               /\ UNCHANGED <<files, filesO, providers, collat, report, bal, bal2, height, par>> /\ last' = lbl
 ReqReport(s, p, fid, names) ==
   LET lbl == [a |-> "reqreport", s |-> s, p |-> p, f |-> fid, names |-> names, ok |-> TRUE] IN
   IF fid \notin DOMAIN files \/ <<p, fid>> \in DOMAIN report \/ p \notin Listed(fid) \/ ~HasRec(p, fid)
@@ -163,7 +163,7 @@ ReqReport(s, p, fid, names) ==
   ELSE IF Cardinality(Eligible(p)) < par.fs THEN Fail([lbl EXCEPT !.names = <<>>])
   ELSE /\ FormNamesOK(p, names)
        /\ report' = Put(report, <<p, fid>>, [names |-> names, done |-> {}])
-       /\ UNCHANGED <<files, filesO, proofs, providers, collat, attest, bal, height, par>> /\ last' = lbl
+       /\ UNCHANGED <<files, filesO, proofs, providers, collat, attest, bal, bal2, height, par>> /\ last' = lbl
 Report(s, p, fid) ==
   LET lbl == [a |-> "report", s |-> s, p |-> p, f |-> fid, ok |-> TRUE]
       k == <<p, fid>>
@@ -172,13 +172,13 @@ Report(s, p, fid) ==
      ELSE LET done2 == report[k].done \cup {s} IN
           IF Cardinality(done2) < par.min
           THEN /\ report' = [report EXCEPT ![k].done = done2]
-               /\ UNCHANGED <<files, filesO, proofs, providers, collat, attest, bal, height, par>> /\ last' = lbl
+               /\ UNCHANGED <<files, filesO, proofs, providers, collat, attest, bal, bal2, height, par>> /\ last' = lbl
           ELSE IF fid \notin DOMAIN files THEN Fail(lbl)
           ELSE /\ report' = Del(report, k)
                /\ files' = [files EXCEPT ![fid].proofs = Without(@, p)]
                /\ filesO' = [filesO EXCEPT ![fid].proofs = Without(@, p)]
                /\ proofs' = IF p \in Listed(fid) THEN Del(proofs, k) ELSE proofs
-               /\ UNCHANGED <<providers, collat, attest, bal, height, par>> /\ last' = lbl
+               /\ UNCHANGED <<providers, collat, attest, bal, bal2, height, par>> /\ last' = lbl
 
 ---------------------------------------------------------------------------
 (* Reward block: keeper/rewards.go ManageRewards at the new height h.                 *)
@@ -220,31 +220,38 @@ Credit(p, h) == SumOver({fid \in DOMAIN files : p \in Listed(fid)}, LAMBDA fid :
 AllListed == UNION {Listed(fid) : fid \in DOMAIN files}
 Share(R, cr, T) == IF T > 0 THEN (R * cr) \div T ELSE 0
 
-\* pay = amounts received by the provers in this block (trace: observed; model checking: exact floor)
-Reward(h, R, pay) ==
+\* pay / pay2 = amounts received by the provers in this block in the two denominations
+\* (trace: observed; model checking: exact floor). R / R2 = amounts released from the gauges.
+PayOK(R, pay, h) ==
+  LET T == TotalListed
+      paid == SumOver(DOMAIN pay, LAMBDA p : pay[p]) IN
+  /\ \A p \in DOMAIN pay :
+        /\ pay[p] >= 0
+        /\ (p \notin AllListed \/ Credit(p, h) = 0) => pay[p] = 0
+        /\ p \in AllListed => Abs(pay[p] - Share(R, Credit(p, h), T)) <= 1
+  /\ paid <= R
+NewBal(b, R, pay) ==
+  LET paid == SumOver(DOMAIN pay, LAMBDA p : pay[p]) IN
+  [a \in DOMAIN b |-> IF a = GAUGES THEN b[a] - R
+                      ELSE IF a = MODS THEN b[a] + R - paid
+                      ELSE IF a \in DOMAIN pay THEN b[a] + pay[a] ELSE b[a]]
+Reward(h, R, pay, R2, pay2) ==
   LET gone == {fid \in DOMAIN files : Len(files[fid].proofs) = 0 /\ ~Young(files[fid], h)}
-      T == TotalListed
-      paid == SumOver(DOMAIN pay, LAMBDA p : pay[p])
-  IN /\ \A p \in DOMAIN pay : /\ pay[p] >= 0
-                              /\ (p \notin AllListed \/ Credit(p, h) = 0) => pay[p] = 0
-                              /\ p \in AllListed => Abs(pay[p] - Share(R, Credit(p, h), T)) <= 1
-     /\ paid <= R
+  IN /\ PayOK(R, pay, h) /\ PayOK(R2, pay2, h)
      /\ files' = [fid \in (DOMAIN files) \ gone |-> [files[fid] EXCEPT !.proofs = Keep(fid, h)]]
      /\ filesO' = [fid \in (DOMAIN filesO) \ gone |-> [filesO[fid] EXCEPT !.proofs = Keep(fid, h)]]
      /\ proofs' = DelAll(proofs, UNION {{<<p, fid>> : p \in Drop(fid, h)} : fid \in DOMAIN files})
      /\ providers' = [p \in DOMAIN providers |->
                         [providers[p] EXCEPT !.burned = @ + Cardinality({fid \in DOMAIN files : p \in Burn(fid, h)})]]
-     /\ bal' = [a \in DOMAIN bal |-> IF a = GAUGES THEN bal[a] - R
-                                     ELSE IF a = MODS THEN bal[a] + R - paid
-                                     ELSE IF a \in DOMAIN pay THEN bal[a] + pay[a] ELSE bal[a]]
-Block(R, pay) ==
+     /\ bal' = NewBal(bal, R, pay) /\ bal2' = NewBal(bal2, R2, pay2)
+Block(R, pay, R2, pay2) ==
   /\ height < MAXH /\ height' = height + 1
   /\ IF (height + 1) % par.C = 0
-     THEN /\ R <= bal[GAUGES] /\ Reward(height + 1, R, pay)
+     THEN /\ R <= bal[GAUGES] /\ R2 <= bal2[GAUGES] /\ Reward(height + 1, R, pay, R2, pay2)
           /\ UNCHANGED <<collat, attest, report, par>>
-     ELSE /\ R = 0 /\ \A p \in DOMAIN pay : pay[p] = 0
-          /\ UNCHANGED <<files, filesO, proofs, providers, collat, attest, report, bal, par>>
-  /\ last' = [a |-> "block", rel |-> R, reward |-> ((height + 1) % par.C = 0), ok |-> TRUE]
+     ELSE /\ R = 0 /\ R2 = 0 /\ (\A p \in DOMAIN pay : pay[p] = 0) /\ (\A q \in DOMAIN pay2 : pay2[q] = 0)
+          /\ UNCHANGED <<files, filesO, proofs, providers, collat, attest, report, bal, bal2, par>>
+  /\ last' = [a |-> "block", rel |-> R, rel2 |-> R2, reward |-> ((height + 1) % par.C = 0), ok |-> TRUE]
 
 ---------------------------------------------------------------------------
 (* Ghost (history) variables, functions of (vars, last', vars').                      *)
@@ -274,6 +281,7 @@ GhostNext ==
 ---------------------------------------------------------------------------
 (* Properties *)
 Delta(a) == bal'[a] - bal[a]
+Delta2(a) == bal2'[a] - bal2[a]
 Users == (DOMAIN bal) \ {MODS, MODC, GAUGES, "other"}
 
 \* C17 (state)
@@ -292,9 +300,9 @@ C01_NoEffect ==
           (fid \in DOMAIN files /\ l.s \in ToSet(files[fid].proofs)) <=> (fid \in DOMAIN files' /\ l.s \in ToSet(files'[fid].proofs))
      /\ \A k \in (DOMAIN proofs) \cup (DOMAIN proofs') :
           k[1] = l.s => (k \in DOMAIN proofs /\ k \in DOMAIN proofs' /\ proofs'[k] = proofs[k])
-     /\ Delta(l.s) = 0
+     /\ Delta(l.s) = 0 /\ Delta2(l.s) = 0
 C01_Paid == (last'.a = "block") =>
-  \A p \in Users : Delta(p) > 0 => p \in ever
+  \A p \in Users : (Delta(p) > 0 \/ Delta2(p) > 0) => p \in ever
 
 \* C02
 C02_ChallengeInRange ==
@@ -309,6 +317,14 @@ C02_HonestKept ==
           providers'[p].burned - providers[p].burned <= Cardinality({x \in PairsOf(files) : x[1] = p /\ x \in missed'})
 
 \* C03
+\* D = observed balance change per account, R = amount released, cr = size credited per prover
+PaidRight(D(_), R, cr(_), Tl, Tc) ==
+  /\ \A p \in Users : (p \notin AllListed \/ cr(p) = 0) => D(p) = 0
+  /\ SumOver(Users, LAMBDA p : D(p)) <= R
+  /\ \A p \in Users \cap AllListed : cr(p) > 0 =>
+       /\ D(p) >= Share(R, cr(p), Tl) - 1
+       /\ D(p) <= (IF Tc > 0 THEN (R * cr(p) + Tc - 1) \div Tc ELSE 0) + 1
+  /\ \A p, q \in Users \cap AllListed : (cr(p) > 0 /\ cr(p) = cr(q)) => Abs(D(p) - D(q)) <= 1
 C03_Reward ==
   (last'.a = "block" /\ last'.reward) =>
     LET h == height'
@@ -324,12 +340,8 @@ C03_Reward ==
        /\ \A p \in DOMAIN providers :
             p \in DOMAIN providers' /\
             providers'[p].burned = providers[p].burned + Cardinality({fid \in DOMAIN files : p \in Listed(fid) /\ ~met(p, fid)})
-       /\ \A p \in Users : (p \notin AllListed \/ cr(p) = 0) => Delta(p) = 0
-       /\ SumOver(Users, LAMBDA p : Delta(p)) <= R
-       /\ \A p \in Users \cap AllListed : cr(p) > 0 =>
-            /\ Delta(p) >= Share(R, cr(p), Tl) - 1
-            /\ Delta(p) <= (IF Tc > 0 THEN (R * cr(p) + Tc - 1) \div Tc ELSE 0) + 1
-       /\ \A p, q \in Users \cap AllListed : (cr(p) > 0 /\ cr(p) = cr(q)) => Abs(Delta(p) - Delta(q)) <= 1
+       /\ PaidRight(Delta, R, cr, Tl, Tc)
+       /\ PaidRight(Delta2, last'.rel2, cr, Tl, Tc)
 
 \* C14
 Quorum(kind, p, fid, form) ==
@@ -382,6 +394,7 @@ C15_Step ==
                     /\ \A a \in DOMAIN collat : a # l.s => (a \in DOMAIN collat' /\ collat'[a] = collat[a])
                ELSE bal' = bal /\ collat' = collat /\ providers' = providers
   /\ (l.a \notin {"initprovider", "shutdown"}) => (collat' = collat /\ Delta(MODC) = 0)
+  /\ (l.a # "block") => bal2' = bal2
 
-TypeOK == \A a \in DOMAIN bal : bal[a] >= 0
+TypeOK == (\A a \in DOMAIN bal : bal[a] >= 0) /\ (\A a \in DOMAIN bal2 : bal2[a] >= 0)
 =============================================================================
